@@ -26,6 +26,8 @@ pub struct GenProject {
     pub failing_templates: Vec<String>,
     /// files that start with a byte order mark
     pub bom_files: usize,
+    /// templates that received tuple / anonymous-component statements
+    pub sugared_defs: usize,
 }
 
 #[derive(Clone, Copy, Debug)]
@@ -38,11 +40,13 @@ pub struct ProjOpts {
     pub clean: bool,
     /// chance (of 256) that a file starts with a UTF-8 byte order mark
     pub bom_chance: u32,
+    /// chance (of 256) that a template gets tuple / anonymous-component statements
+    pub sugar_chance: u32,
 }
 
 impl Default for ProjOpts {
     fn default() -> Self {
-        ProjOpts { max_files: 3, max_defs: 4, comments: true, main_component: true, clean: false, bom_chance: 0 }
+        ProjOpts { max_files: 3, max_defs: 4, comments: true, main_component: true, clean: false, bom_chance: 0, sugar_chance: 0 }
     }
 }
 
@@ -113,6 +117,106 @@ fn make_failing(d: &mut Def, ids: &mut Ids) {
     stmts.extend(tail);
 }
 
+/// Insert tuple and anonymous-component statements (valid sugar, templates only) after the signal
+/// and component declarations: `var (zt1, zt2) = (e1, e2);`, `signal zu1; signal zu2;
+/// (zu1, _, zu2) <-- (e1, e2, e3);`, `signal zv; zv <== T(p..)(a..);` for a visible template T.
+fn add_sugar(d: &mut Def, ids: &mut Ids, t: &mut Tape, templates: &[TemplateSig]) -> usize {
+    let Stmt::Block { stmts, .. } = &mut d.body else { return 0 };
+    let inputs: Vec<String> = stmts
+        .iter()
+        .filter_map(|s| match s {
+            Stmt::Decl { kind: DeclKind::Signal(SigKind::Input, _), syms, .. } if syms.iter().all(|y| y.dims.is_empty()) => {
+                syms.first().map(|y| y.name.clone())
+            }
+            _ => None,
+        })
+        .collect();
+    let params = d.params.clone();
+    let mut atom = |ids: &mut Ids, t: &mut Tape| -> Expr {
+        match t.below(3) {
+            0 if !inputs.is_empty() => var(ids, &inputs[t.below(inputs.len())]),
+            1 if !params.is_empty() => var(ids, &params[t.below(params.len())]),
+            _ => num(ids, t.below(9) as u64),
+        }
+    };
+    let sig_decl = |ids: &mut Ids, name: &str| Stmt::Decl {
+        id: ids.next(),
+        kind: DeclKind::Signal(SigKind::Intermediate, vec![]),
+        syms: vec![DeclSym { id: ids.next(), sub_id: ids.next(), name: name.to_string(), dims: vec![], init: None }],
+        init_op: AssignOp::Constrain,
+    };
+    let mut pre: Vec<Stmt> = Vec::new();
+    let n = 1 + t.below(3);
+    for k in 0..n {
+        match t.below(4) {
+            0 => {
+                // tuple declaration of variables
+                let (e1, e2) = (atom(ids, t), atom(ids, t));
+                let rhs = Expr::Tuple { id: ids.next(), elems: vec![e1, e2] };
+                pre.push(Stmt::TupleDecl {
+                    id: ids.next(),
+                    kind: DeclKind::Var,
+                    syms: vec![
+                        DeclSym { id: ids.next(), sub_id: ids.next(), name: format!("zt{k}a"), dims: vec![], init: None },
+                        DeclSym { id: ids.next(), sub_id: ids.next(), name: format!("zt{k}b"), dims: vec![], init: None },
+                    ],
+                    init: Some((AssignOp::Var, rhs)),
+                });
+            }
+            1 => {
+                // tuple assignment to signals with `_`, `<--` or `<==`
+                let (a, b) = (format!("zu{k}a"), format!("zu{k}b"));
+                pre.push(sig_decl(ids, &a));
+                pre.push(sig_decl(ids, &b));
+                let lhs = Expr::Tuple { id: ids.next(), elems: vec![var(ids, &a), Expr::Underscore { id: ids.next() }, var(ids, &b)] };
+                let (e1, e2, e3) = (atom(ids, t), atom(ids, t), atom(ids, t));
+                let rhs = Expr::Tuple { id: ids.next(), elems: vec![e1, e2, e3] };
+                let op = if t.chance(128) { AssignOp::Signal } else { AssignOp::Constrain };
+                pre.push(Stmt::Assign { id: ids.next(), lhs, op, rhs, reversed: t.chance(50) });
+            }
+            _ => {
+                // anonymous component of a visible template
+                if templates.is_empty() {
+                    continue;
+                }
+                let sig = templates[t.below(templates.len())].clone();
+                let params: Vec<Expr> = (0..sig.params).map(|_| num(ids, 1 + t.below(4) as u64)).collect();
+                let ins: Vec<Expr> = (0..sig.inputs.len()).map(|_| atom(ids, t)).collect();
+                let anon = Expr::Anon { id: ids.next(), name: sig.name.clone(), params, inputs: ins, names: None };
+                match sig.outputs.len() {
+                    0 => pre.push(Stmt::ExprStmt { id: ids.next(), e: anon }),
+                    1 => {
+                        let v = format!("zv{k}");
+                        pre.push(sig_decl(ids, &v));
+                        let lhs = var(ids, &v);
+                        pre.push(Stmt::Assign { id: ids.next(), lhs, op: AssignOp::Constrain, rhs: anon, reversed: false });
+                    }
+                    m => {
+                        let mut elems = Vec::new();
+                        for j in 0..m {
+                            let v = format!("zv{k}x{j}");
+                            pre.push(sig_decl(ids, &v));
+                            elems.push(var(ids, &v));
+                        }
+                        let lhs = Expr::Tuple { id: ids.next(), elems };
+                        pre.push(Stmt::Assign { id: ids.next(), lhs, op: AssignOp::Constrain, rhs: anon, reversed: false });
+                    }
+                }
+            }
+        }
+    }
+    let added = pre.len();
+    let split = stmts
+        .iter()
+        .rposition(|s| matches!(s, Stmt::Decl { kind: DeclKind::Signal(..) | DeclKind::Component, .. }))
+        .map(|i| i + 1)
+        .unwrap_or(0);
+    let tail = stmts.split_off(split);
+    stmts.extend(pre);
+    stmts.extend(tail);
+    added
+}
+
 pub fn template_profile(t: &mut Tape) -> Profile {
     let mut p = Profile::sem(true, field::bn254());
     p.max_stmts = 4 + t.below(8);
@@ -138,6 +242,7 @@ pub fn gen_project(t: &mut Tape, o: ProjOpts) -> GenProject {
     let mut failing_defs = 0;
     let mut failing_templates = Vec::new();
     let mut bom_files = 0;
+    let mut sugared_defs = 0;
     for i in 0..nfiles {
         let mut f = File::default();
         f.version = Some((2, [0u64, 1][t.below(2)], t.below(5) as u64));
@@ -163,6 +268,9 @@ pub fn gen_project(t: &mut Tape, o: ProjOpts) -> GenProject {
             p.templates = templates.clone();
             let name = if template { format!("T{i}x{k}") } else { format!("f{i}x{k}") };
             let mut d = gen_def(t, &p, &mut ids, &name);
+            if template && o.sugar_chance > 0 && t.chance(o.sugar_chance) {
+                sugared_defs += usize::from(add_sugar(&mut d, &mut ids, t, &templates) > 0);
+            }
             if !o.clean && t.chance(40) {
                 // a definition that fails during SSA conversion (read of a declared but never
                 // assigned variable) and also has a CFG-stage warning (shadowed parameter or local)
@@ -220,7 +328,7 @@ pub fn gen_project(t: &mut Tape, o: ProjOpts) -> GenProject {
     if t.chance(60) {
         named.reverse();
     }
-    GenProject { files, named, failing_defs, failing_templates, bom_files }
+    GenProject { files, named, failing_defs, failing_templates, bom_files, sugared_defs }
 }
 
 impl GenProject {
